@@ -5,9 +5,11 @@ BOUNDS = {
               'from_chars and strings::to_integer: unsigned char/signed char with base symbolic 2..36 for SN 0..2, every other type with base symbolic for SN 0..1; base enumerated {2,10,16,36} x SN 0..4 for the 8/16-bit types '
               '(overflow by one digit and by one unit reachable), {10,16,36} x SN {0,1,3,4} for unsigned/int, {10,16} x SN {0,1,3,4} for unsigned long/long. '
               'strtol, strtoll, strtoul, strtoull (with and without end pointer), atoi, atol, atoll, stoi, stol, stoll, stoul, stoull (with pos, null pos, defaults): SN 0..2 with base symbolic over {0, 2..36}, SN 3..4 with base {10,16}. '
-              'Outside: overflow of the 32/64-bit types (needs 7..20 characters), longer texts.'),
+              'Every wrapper at the limits of its result type (q_lim_*): the text of INT/LONG/LLONG MIN and MAX, of ULONG_MAX and of LONG_MAX for the unsigned wrappers (window crossing 2^63), bases {10,16}, '
+              'with the last 2..3 characters (and for base 16 / ULONG_MAX also the first one) symbolic over all 256 values, the other characters being the digits of the limit. '
+              'Outside: overflow of the 32/64-bit types other than in these windows, longer texts.'),
     'thorough': ('quick grid plus: char, long long, unsigned long long; base symbolic up to SN 4 (8-bit) / SN 2 (all other types); 8-bit types SN 5..6 in bases {2,10,16,36}, 16-bit types SN 5..6 in bases {10,16}, base 8 for the 8/16-bit types; '
-                 '32-bit types SN 5 in bases {10,16} and overflow of unsigned with SN 7 in base 36 (int: no verdict within 900 s); strtol family SN 3 with symbolic base, bases {8,36} for SN 3..4, base 10 for SN 5. '
+                 'limit texts also in bases 8 and 36 and with 4..5 symbolic characters; 32-bit types SN 5 in bases {10,16} and overflow of unsigned with SN 7 in base 36 (int: no verdict within 900 s); strtol family SN 3 with symbolic base, bases {8,36} for SN 3..4, base 10 for SN 5. '
                  'Outside: base-10 overflow of 32/64-bit types (11/20 characters), overflow of strtol/strtoul themselves (>= 13 characters; the defect there is recorded from to_integer<narrow>, the shared implementation).'),
 }
 ASSUMPTIONS = [
@@ -80,4 +82,24 @@ def queries(tier, prop='C10'):
         for e in CFUNCS + STOFUNCS:
             if e in ATO and b != 10: continue
             out.append(q(e, cfg, ub, sv, bud))
+    # ---- every wrapper at the limits of its result type (q_lim_*): text of the limit with LEAD leading and TAIL trailing symbolic characters
+    I32, I64, U64W = ('q_lim_stoi',), ('q_lim_strtol', 'q_lim_strtoll', 'q_lim_stol', 'q_lim_stoll'), ('q_lim_strtoul', 'q_lim_strtoull', 'q_lim_stoul', 'q_lim_stoull')
+    LIMS = [  # (text, base, LEAD, TAIL, entries)
+        ('2147483647', 10, 0, 3, I32 + ('q_lim_atoi',)), ('-2147483648', 10, 0, 3, I32 + ('q_lim_atoi',)),
+        ('7fffffff', 16, 1, 2, I32), ('-80000000', 16, 0, 2, I32),
+        ('9223372036854775807', 10, 0, 3, I64 + ('q_lim_atol', 'q_lim_atoll') + U64W),      # unsigned wrappers: the window crosses 2^63
+        ('-9223372036854775808', 10, 0, 3, I64 + ('q_lim_atol', 'q_lim_atoll')),
+        ('7fffffffffffffff', 16, 1, 2, I64 + U64W), ('-8000000000000000', 16, 0, 2, I64),
+        ('18446744073709551615', 10, 1, 3, U64W), ('ffffffffffffffff', 16, 1, 2, U64W),
+    ]
+    if thorough:
+        LIMS += [('zik0zj', 36, 1, 2, I32), ('-zik0zk', 36, 0, 2, I32), ('1y2p0ij32e8e7', 36, 1, 2, I64 + U64W), ('-1y2p0ij32e8e8', 36, 0, 2, I64), ('3w5e11264sgsf', 36, 1, 2, U64W),
+                 ('17777777777', 8, 1, 2, I32), ('777777777777777777777', 8, 1, 2, I64), ('1777777777777777777777', 8, 1, 2, U64W),
+                 ('9223372036854775807', 10, 1, 4, I64 + U64W), ('18446744073709551615', 10, 2, 3, U64W)]
+    for txt, b, lead, tail, ents in LIMS:
+        cfg = {'TY': 'int', 'SN': 1, 'WOVF': 0, 'BASE': b, 'LIMTXT': '"%s"' % txt, 'LEAD': lead, 'TAIL': tail}
+        for e in ents:
+            d = q(e, cfg, ub, 'minisat', 300)
+            d['unwind'] = len(txt) + 4
+            out.append(d)
     return out
